@@ -84,12 +84,23 @@ func isContainerType(t types.Type) bool {
 }
 
 func runC08(w *World, r *Report) {
+	set := ruleConfTaint(w, r)
+	if set == nil {
+		return
+	}
+	ruleCopyAll(w, r)
+	ruleDeterm(w, r, set)
+}
+
+// ruleConfTaint: R-CONFTAINT and R-GLOBALS over the compile closure (also run under C02: a directive that leaks into
+// the caller's Config changes what later compilations with that Config mean).
+func ruleConfTaint(w *World, r *Report) map[*ssa.Function]bool {
 	const rule = "R-CONFTAINT"
 	r.Rule(rule, "no write effect in the compile closure is rooted in memory reachable from Compile's *Config argument; no container field of the program or parser and no surviving closure holds such memory", 150)
 	r.Rule("R-GLOBALS", "no write effect in the compile closure is rooted in a package-level variable", 150)
 	entries, set, note := compileClosure(w, r, rule)
 	if entries == nil {
-		return
+		return nil
 	}
 	if note != "" {
 		r.Note("%s", note)
@@ -168,9 +179,7 @@ func runC08(w *World, r *Report) {
 			}
 		})
 	}
-
-	ruleCopyAll(w, r)
-	ruleDeterm(w, r, set)
+	return set
 }
 
 // containerOnly returns an all-ones mask when the type is a container (so the
